@@ -196,9 +196,9 @@ def r3_conflicts(ctx):
     else:
         r.viol("R3:push_count#entry", "the previous count type is not read from (and the new one stored in) the count variable's own record", file=fn.file, line=fn.line)
     want = {"ok": ("Ok", lambda p, n: p == C("None") or (p == C("Some", C("Plural")) and n == C("Plural"))),
-            "same-range": ("Ok", lambda p, n: p == C("Some", C("Range", A("a"))) and n == C("Range", A("a"))),
+            "same-range": ("Ok", lambda p, n: p == C("Some", C("Range", C("U8"))) and n == C("Range", C("U8"))),
             "mix": ("RangeAndPluralsMix", lambda p, n: (p == C("Some", C("Plural")) and n[1] == "Range") or (p[1] == "Some" and p[2][0][1] == "Range" and n == C("Plural"))),
-            "range-mismatch": ("RangeTypeMissmatch", lambda p, n: p == C("Some", C("Range", A("b"))) and n == C("Range", A("a")))}
+            "range-mismatch": ("RangeTypeMissmatch", lambda p, n: p == C("Some", C("Range", C("I32"))) and n == C("Range", C("U8")))}
 
     def classify(v):
         if v[0] == "ctor" and v[1] == "Ok":
@@ -223,17 +223,22 @@ def push_count_table(ctx):
     from rules import absint
     from rules.absint import AEval, C, CF, A, L, T
     funcs = absint.file_funcs(ctx.ast, PL, impl_self="InterpolationKeys")
+    for q, f in absint.file_funcs(ctx.ast, PR).items():
+        if q.startswith("RangeType::"):
+            funcs[q] = f
     pc = funcs.get("InterpolationKeys::push_count")
     if pc is None:
         return None
     S = lambda x: ("str", x)  # noqa: E731
     rows = []
+    RA, RB = C("U8"), C("I32")
     other = CF("VarInfo", range_count=C("None"), formatters=L(A("g")))
-    for prev in (C("None"), C("Some", C("Plural")), C("Some", C("Range", A("a"))), C("Some", C("Range", A("b")))):
-        for ty in (C("Plural"), C("Range", A("a"))):
+    for prev in (C("None"), C("Some", C("Plural")), C("Some", C("Range", RA)), C("Some", C("Range", RB))):
+        for ty in (C("Plural"), C("Range", RA)):
             this = CF("InterpolationKeys", variables=L(T(S("other"), other), T(S("count"), CF("VarInfo", range_count=prev, formatters=L(A("f0"))))), components=L())
             ev = AEval(funcs=funcs)
             ev.default_value = CF("VarInfo", range_count=C("None"), formatters=L())
+            ev.type_of_ctor = {k: "RangeType" for k in ("I8", "I16", "I32", "I64", "U8", "U16", "U32", "U64", "F32", "F64")}
             out = ev.run_fn(pc, [this, S("kp"), ty, S("count")])
             if isinstance(out, str):
                 rows.append((prev, ty, out, None, False))
